@@ -36,7 +36,7 @@ Section ExactFilters.
         = reach FR (vphi Ops phi z) (map (op_phi Ops phi) ops).
     Proof.
       intros z ops Hv. unfold reach. rewrite initiate_scalar.
-      apply (run_phi Ops phi phi_zero phi_one phi_add phi_sub phi_mul phi_div FO FR).
+      apply (run_phi Ops phi phi_zero phi_one phi_add phi_sub phi_mul phi_div phi_of_Q FO FR).
       - reflexivity.
       - intros m. cbn [motion_std box_filter]. unfold vphi at 1. rewrite map_app. rewrite !box_std_phi, !phi_of_Q, phi_one. rewrite <- (vget_phi Ops phi phi_zero). reflexivity.
       - intros m. cbn [proj_std box_filter]. unfold vphi at 1. rewrite box_std_phi, phi_of_Q, phi_one.
@@ -59,7 +59,7 @@ Section ExactFilters.
         = reach FR (vphi Ops phi z) (map (op_phi Ops phi) ops).
     Proof.
       intros z ops Hv. unfold reach. rewrite initiate_scalar.
-      apply (run_phi Ops phi phi_zero phi_one phi_add phi_sub phi_mul phi_div FO FR).
+      apply (run_phi Ops phi phi_zero phi_one phi_add phi_sub phi_mul phi_div phi_of_Q FO FR).
       - reflexivity.
       - intros m. cbn [motion_std point_filter]. unfold vphi at 1. rewrite map_app. rewrite !point_std_phi, phi_one. reflexivity.
       - intros m. cbn [proj_std point_filter]. unfold vphi at 1. rewrite point_std_phi, phi_one. reflexivity.
